@@ -1,1 +1,431 @@
-(* placeholder: being written by the numfloat builder *)
+(* The `Num float` instance (DESIGN §2.1): Coq primitive floats = IEEE-754 binary64 = Rust f64.
+   + - * / sqrt abs neg and the comparisons are the hardware operations (bit-identical to Rust).
+   exp / ln / pow / fmod / trunc / normal cdf / inverse cdf are written in Gallina on top of them
+   and are meant to be EXECUTED (vm_compute) for differential testing; nothing is proved here.
+   Accuracy (measured by driver/numfloat_selftest.py against glibc libm / AS241):
+     f_exp, f_ln, f_pow : about 1 ulp (f_pow uses a double-double logarithm);
+     f_trunc, f_rem     : exact;
+     f_ncdf             : abs <= 1e-15, rel <= 1e-13 on [-8,8];   f_nicdf : rel ~ 1e-15.
+   Every helper is prefixed `fl_` / `f_` / `c_` / `as_` to keep the global namespace tidy. *)
+From Coq Require Import Floats ZArith Uint63 SpecFloat List Bool.
+From RL Require Import Base.Num.
+Import ListNotations.
+Local Open Scope float_scope.
+
+(* ------------------------------------------------------------------------------------------ *)
+(* bit patterns                                                                                *)
+
+Definition fl_two52Z : Z := 4503599627370496%Z.
+Definition fl_two63Z : Z := 9223372036854775808%Z.
+
+(* b = the 64-bit IEEE pattern as a non-negative integer (Rust f64::to_bits) *)
+Definition float_of_bits (b : Z) : float :=
+  let s := Z.testbit b 63 in
+  let e := Z.land (Z.shiftr b 52) 2047 in
+  let m := Z.land b (fl_two52Z - 1) in
+  if (e =? 2047)%Z then
+    (if (m =? 0)%Z then (if s then neg_infinity else infinity) else nan)
+  else if (e =? 0)%Z then
+    match m with
+    | Zpos p => SF2Prim (S754_finite s p (-1074))
+    | _ => if s then neg_zero else zero
+    end
+  else
+    match (m + fl_two52Z)%Z with
+    | Zpos p => SF2Prim (S754_finite s p (e - 1075))
+    | _ => nan
+    end.
+
+(* inverse; every NaN is sent to the canonical quiet NaN 0x7ff8000000000000.
+   Written with the primitive frshiftexp / normfr_mantissa (Prim2SF costs ~0.2 ms under vm_compute):
+   |f| = m 2^k with 1/2 <= m < 1, M = m 2^53 in [2^52, 2^53);  normal iff k >= -1021, biased
+   exponent k + 1022;  subnormal: |f| = (M >> (-1021 - k)) 2^-1074 exactly. *)
+Definition bits_of_float (f : float) : Z :=
+  if is_nan f then 9221120237041090560%Z
+  else
+    let sg := if get_sign f then fl_two63Z else 0%Z in
+    let a := abs f in
+    if a =? 0 then sg
+    else if a =? infinity then (sg + 9218868437227405312)%Z
+    else
+      let '(m, e) := frshiftexp a in
+      let k := (Uint63.to_Z e - 2101)%Z in
+      let M := Uint63.to_Z (normfr_mantissa m) in
+      if (-1021 <=? k)%Z then (sg + Z.shiftl (k + 1022) 52 + (M - fl_two52Z))%Z
+      else (sg + Z.shiftr M (-1021 - k))%Z.
+
+(* ------------------------------------------------------------------------------------------ *)
+(* basic helpers                                                                               *)
+
+(* f * 2^k, one rounding (exact unless the result is subnormal or overflows) *)
+Definition fl_scale (f : float) (k : Z) : float :=
+  ldshiftexp f (Uint63.of_Z (Z.max (-2100) (Z.min k 2100) + 2101)).
+
+(* correctly rounded (nearest-even) conversion of a non-negative integer *)
+Definition fl_of_nonneg (z : Z) : float :=
+  if (z <? 4611686018427387904)%Z then of_uint63 (Uint63.of_Z z)
+  else
+    let sh := (Z.log2 z + 1 - 53)%Z in
+    let q := Z.shiftr z sh in
+    let r := (z - Z.shiftl q sh)%Z in
+    let half := Z.shiftl 1 (sh - 1) in
+    let q' := if ((half <? r)%Z || ((half =? r)%Z && Z.odd q))%bool then (q + 1)%Z else q in
+    fl_scale (of_uint63 (Uint63.of_Z q')) sh.
+
+Definition f_ofZ (z : Z) : float :=
+  match z with
+  | Z0 => 0
+  | Zpos _ => fl_of_nonneg z
+  | Zneg p => - (fl_of_nonneg (Zpos p))
+  end.
+
+(* error-free transformations (no FMA in PrimFloat): Knuth two-sum, Dekker fast-two-sum / product *)
+Definition fl_two_sum (a b : float) : float * float :=
+  let s := a + b in let bb := s - a in (s, (a - (s - bb)) + (b - bb)).
+Definition fl_fast_two_sum (a b : float) : float * float :=
+  let s := a + b in (s, b - (s - a)).
+Definition fl_split (a : float) : float * float :=
+  let c := 134217729 * a in let hi := c - (c - a) in (hi, a - hi).
+Definition fl_two_prod (a b : float) : float * float :=
+  let p := a * b in
+  let '(ah, al) := fl_split a in
+  let '(bh, bl) := fl_split b in
+  (p, ((ah * bh - p) + ah * bl + al * bh) + al * bl).
+
+Fixpoint fl_horner (cs : list float) (r acc : float) : float :=
+  match cs with
+  | [] => acc
+  | c :: cs' => fl_horner cs' r (acc * r + c)
+  end.
+
+(* ------------------------------------------------------------------------------------------ *)
+(* constants (hex literals are exact)                                                          *)
+
+Definition c_ln2hi : float := 0x1.62e42fee00000p-1.     (* 21 trailing zero bits: k*ln2hi exact *)
+Definition c_ln2lo : float := 0x1.a39ef35793c76p-33.
+Definition c_invln2 : float := 0x1.71547652b82fep+0.
+Definition c_magic : float := 6755399441055744.          (* 1.5 * 2^52 *)
+Definition c_P1 : float := 0x1.555555555553ep-3.
+Definition c_P2 : float := - 0x1.6c16c16bebd93p-9.
+Definition c_P3 : float := 0x1.1566aaf25de2cp-14.
+Definition c_P4 : float := - 0x1.bbd41c5d26bf1p-20.
+Definition c_P5 : float := 0x1.6376972bea4d0p-25.
+Definition c_Lg1 : float := 0x1.5555555555593p-1.
+Definition c_Lg2 : float := 0x1.999999997fa04p-2.
+Definition c_Lg3 : float := 0x1.2492494229359p-2.
+Definition c_Lg4 : float := 0x1.c71c51d8e78afp-3.
+Definition c_Lg5 : float := 0x1.7466496cb03dep-3.
+Definition c_Lg6 : float := 0x1.39a09d078c69fp-3.
+Definition c_Lg7 : float := 0x1.2f112df3e5244p-3.
+Definition c_sqrt1_2 : float := 0x1.6a09e667f3bcdp-1.
+Definition c_2_sqrtpi : float := 0x1.20dd750429b6dp+0.
+Definition c_1_sqrtpi : float := 0x1.20dd750429b6dp-1.
+Definition c_third_h : float := 0x1.5555555555555p-2.
+Definition c_third_l : float := 0x1.5555555555555p-56.
+(* 1/5, 1/7, ..., 1/27 highest degree first (atanh series tail) *)
+Definition c_odd_inv : list float :=
+  [0x1.2f684bda12f68p-5; 0x1.47ae147ae147bp-5; 0x1.642c8590b2164p-5; 0x1.8618618618618p-5;
+   0x1.af286bca1af28p-5; 0x1.e1e1e1e1e1e1ep-5; 0x1.1111111111111p-4; 0x1.3b13b13b13b14p-4;
+   0x1.745d1745d1746p-4; 0x1.c71c71c71c71cp-4; 0x1.2492492492492p-3; 0x1.999999999999ap-3].
+Definition f_pi : float := 0x1.921fb54442d18p+1.
+
+(* ------------------------------------------------------------------------------------------ *)
+(* exp                                                                                         *)
+
+(* exp(xh + xl) for -746 <= xh <= 710 and |xl| tiny; fdlibm e_exp.c kernel with an extra low word *)
+Definition fl_exp_hl (xh xl : float) : float :=
+  let tm := xh * c_invln2 + c_magic in
+  let kf := tm - c_magic in
+  let k := (Uint63.to_Z (normfr_mantissa (fst (frshiftexp tm))) - 6755399441055744)%Z in
+  let hi := xh - kf * c_ln2hi in
+  let lo := kf * c_ln2lo - xl in
+  let r := hi - lo in
+  let t := r * r in
+  let c := r - t * (c_P1 + t * (c_P2 + t * (c_P3 + t * (c_P4 + t * c_P5)))) in
+  let y := 1 - ((lo - (r * c) / (2 - c)) - hi) in
+  fl_scale y k.
+
+Definition f_exp (x : float) : float :=
+  if is_nan x then x
+  else if 710 <? x then infinity
+  else if x <? -746 then 0
+  else fl_exp_hl x 0.
+
+(* ------------------------------------------------------------------------------------------ *)
+(* ln                                                                                          *)
+
+(* x positive finite: x = m * 2^k with sqrt(1/2) <= m < sqrt 2 *)
+Definition fl_reduce (x : float) : float * Z :=
+  let '(m, e) := frshiftexp x in
+  let k := (Uint63.to_Z e - 2101)%Z in
+  if m <? c_sqrt1_2 then (m * 2, (k - 1)%Z) else (m, k).
+
+(* fdlibm e_log.c *)
+Definition f_ln (x : float) : float :=
+  if is_nan x then x
+  else if x <? 0 then nan
+  else if x =? 0 then neg_infinity
+  else if x =? infinity then x
+  else
+    let '(m, k) := fl_reduce x in
+    let f := m - 1 in
+    let dk := f_ofZ k in
+    let s := f / (2 + f) in
+    let z := s * s in
+    let w := z * z in
+    let t1 := w * (c_Lg2 + w * (c_Lg4 + w * c_Lg6)) in
+    let t2 := z * (c_Lg1 + w * (c_Lg3 + w * (c_Lg5 + w * c_Lg7))) in
+    let R := t2 + t1 in
+    let hfsq := 0.5 * f * f in
+    dk * c_ln2hi - ((hfsq - (s * (hfsq + R) + dk * c_ln2lo)) - f).
+
+(* ln x as an unevaluated sum hi + lo, relative error ~ 2e-19 (x positive finite).
+   ln x = k ln2 + 2 atanh s, s = (m-1)/(m+1) carried as sh+sl; the terms 2s and 2s^3/3 are carried in
+   double-double, the remaining odd powers in plain double. *)
+Definition fl_ln_dd (x : float) : float * float :=
+  let '(m, k) := fl_reduce x in
+  let f := m - 1 in
+  let dk := f_ofZ k in
+  let '(dh, dl) := fl_fast_two_sum 2 f in
+  let sh := f / dh in
+  let '(p, pe) := fl_two_prod sh dh in
+  let rem := ((f - p) - pe) - sh * dl in
+  let sl := rem / dh in
+  let '(zh, zl0) := fl_two_prod sh sh in
+  let zl := zl0 + 2 * sh * sl in
+  let '(ch, cl0) := fl_two_prod sh zh in
+  let cl := cl0 + (sh * zl + sl * zh) in
+  let '(th, tl0) := fl_two_prod ch c_third_h in
+  let tl := tl0 + (ch * c_third_l + cl * c_third_h) in
+  let q := fl_horner c_odd_inv zh 0 * zh in
+  let tail5 := 2 * ch * q in
+  let '(h, e1) := fl_two_sum (dk * c_ln2hi) (2 * sh) in
+  let '(h2, e2) := fl_two_sum h (2 * th) in
+  let lo := (e1 + e2) + (dk * c_ln2lo + (2 * sl + (2 * tl + tail5))) in
+  fl_fast_two_sum h2 lo.
+
+(* ------------------------------------------------------------------------------------------ *)
+(* trunc, signum, fmod                                                                         *)
+
+Definition f_trunc (x : float) : float :=
+  let a := abs x in
+  if a <? 4503599627370496 then
+    let t := (a + 4503599627370496) - 4503599627370496 in
+    let t := if a <? t then t - 1 else t in
+    if get_sign x then - t else t
+  else x.
+
+Definition f_signum (x : float) : float :=
+  if is_nan x then x else if get_sign x then -1 else 1.
+
+(* C fmod, exact: |x| = mx 2^ex, |y| = my 2^ey with ex >= ey whenever |x| >= |y|;
+   (mx 2^(ex-ey)) mod my by 9-bit shifts in 63-bit machine integers (my < 2^53) *)
+Definition f_rem (x y : float) : float :=
+  if is_nan x || is_nan y then nan
+  else if is_infinity x then nan
+  else if y =? 0 then nan
+  else if is_infinity y then x
+  else if abs x <? abs y then x
+  else
+    match Prim2SF x, Prim2SF y with
+    | S754_finite sx mx ex, S754_finite _ my ey =>
+        let d := (ex - ey)%Z in
+        let myi := Uint63.of_Z (Zpos my) in
+        let r0 := (Uint63.of_Z (Zpos mx) mod myi)%uint63 in
+        let r1 := ((r0 << Uint63.of_Z (d mod 9)) mod myi)%uint63 in
+        let r := Z.iter (d / 9) (fun r => ((r << 9) mod myi)%uint63) r1 in
+        let v := fl_scale (of_uint63 r) ey in
+        if sx then - v else v
+    | _, _ => x
+    end.
+
+(* ------------------------------------------------------------------------------------------ *)
+(* pow (C pow / Rust powf semantics)                                                           *)
+
+Definition fl_is_int (p : float) : bool := f_trunc p =? p.          (* p finite *)
+Definition fl_is_odd_int (p : float) : bool :=
+  fl_is_int p && negb (let h := p * 0.5 in f_trunc h =? h).
+
+(* x positive finite; p finite non-zero *)
+Definition fl_pow_pos (x p : float) : float :=
+  if x =? 1 then 1
+  else if p =? 1 then x
+  else if p =? 2 then x * x
+  else if p =? -1 then 1 / x
+  else if p =? 0.5 then PrimFloat.sqrt x
+  else
+    let '(lh, ll) := fl_ln_dd x in
+    let t := p * lh in
+    if 710 <? t then infinity
+    else if t <? -746 then 0
+    else
+      let '(ph, pe) := fl_two_prod p lh in
+      fl_exp_hl ph (pe + p * ll).
+
+Definition f_pow (x p : float) : float :=
+  if p =? 0 then 1
+  else if x =? 1 then 1
+  else if is_nan x || is_nan p then nan
+  else
+    let ax := abs x in
+    if is_infinity p then
+      if ax =? 1 then 1
+      else if Bool.eqb (ax <? 1) (p <? 0) then infinity else 0
+    else
+      let neg := get_sign x in
+      if neg && negb (ax =? 0) && negb (is_infinity ax) && negb (fl_is_int p) then nan
+      else
+        let r := if ax =? 0 then (if p <? 0 then infinity else 0)
+                 else if is_infinity ax then (if p <? 0 then 0 else infinity)
+                 else fl_pow_pos ax p in
+        if neg && fl_is_odd_int p then - r else r.
+
+(* ------------------------------------------------------------------------------------------ *)
+(* standard normal cdf                                                                         *)
+
+(* s_n = 1,  s_(k-1) = 1 + w/(2k+1) s_k : erf z = 2/sqrt(pi) e^(-z^2) z s_0 with w = 2 z^2 *)
+Fixpoint fl_erf_loop (n : nat) (kf w s : float) : float :=
+  match n with
+  | O => s
+  | S n' => fl_erf_loop n' (kf - 1) w (1 + w / (2 * kf + 1) * s)
+  end.
+(* erfc z = e^(-z^2)/sqrt(pi) / (z + (1/2)/(z + 1/(z + (3/2)/(z + ...)))) evaluated bottom-up *)
+Fixpoint fl_cf_loop (n : nat) (kf z t : float) : float :=
+  match n with
+  | O => t
+  | S n' => fl_cf_loop n' (kf - 1) z (z + (kf * 0.5) / t)
+  end.
+
+(* exp(-x^2/2) with the square carried exactly *)
+Definition fl_exp_mhsq (x : float) : float :=
+  let '(h, l) := fl_two_prod x x in fl_exp_hl (-0.5 * h) (-0.5 * l).
+
+(* z >= 0, ex = exp(-z^2).  erf for z <= 1 *)
+Definition fl_erf_small (z ex : float) : float :=
+  c_2_sqrtpi * ex * z * fl_erf_loop 30 30 (2 * z * z) 1.
+(* erfc for z > 1 *)
+Definition fl_erfc_large (z ex : float) : float :=
+  let t := if z <? 1.5 then fl_cf_loop 200 200 z z
+           else if z <? 3 then fl_cf_loop 100 100 z z
+           else fl_cf_loop 40 40 z z in
+  c_1_sqrtpi * ex / t.
+
+Definition f_ncdf (x : float) : float :=
+  if is_nan x then x
+  else
+    let ax := abs x in
+    if 40 <? ax then (if x <? 0 then 0 else 1)
+    else
+      let z := ax * c_sqrt1_2 in
+      let ex := fl_exp_mhsq ax in
+      if z <=? 1 then
+        let e := fl_erf_small z ex in
+        if x <? 0 then 0.5 - 0.5 * e else 0.5 + 0.5 * e
+      else
+        let c := 0.5 * fl_erfc_large z ex in
+        if x <? 0 then c else 1 - c.
+
+(* ------------------------------------------------------------------------------------------ *)
+(* inverse normal cdf: Wichura's AS241 (PPND16), relative accuracy about 1e-16                *)
+
+Definition as_a : list float := [0x1.39a296f7d925ep+11; 0x1.052d26b2e45e4p+15; 0x1.06c1c55b78f20p+16; 0x1.66c3e869b752ap+15; 0x1.ad1d8cd4ee71dp+13; 0x1.ece5d2213c0ccp+10; 0x1.0a4888b1a436ep+7; 0x1.b18d91e9eef75p+1].
+Definition as_b : list float := [0x1.46a7eca984b69p+12; 0x1.c0e457cb1ae76p+14; 0x1.3317caa64f4bep+15; 0x1.4b772d5d65266p+14; 0x1.512322e75c89fp+12; 0x1.5797efdc8b3f7p+9; 0x1.5281b386e1ab5p+5; 1].
+Definition as_c : list float := [0x1.9615ac0b7ace9p-11; 0x1.744eb6c45ec67p-6; 0x1.ef2abb9b85c37p-3; 0x1.453cc085375b2p+0; 0x1.d2ecb1a3d02c4p+1; 0x1.713f71462256ap+2; 0x1.2857748cab19bp+2; 0x1.6c665fde9526ap+0].
+Definition as_d : list float := [0x1.20d3f686439e4p-30; 0x1.1f18cbfdf2728p-11; 0x1.f207a7eab17bfp-7; 0x1.2f5123394f040p-3; 0x1.61292f23385c9p-1; 0x1.ad278e6526633p+0; 0x1.06cefbb46a449p+1; 1].
+Definition as_e : list float := [0x1.afb74d693bf93p-23; 0x1.c6ec6cc59e02ap-16; 0x1.45c1908425345p-10; 0x1.b2b41193b4ee7p-6; 0x1.2fad9315255cfp-2; 0x1.c8ea6461fa445p+0; 0x1.5daea6e875003p+2; 0x1.aa1b1c13ee526p+2].
+Definition as_f : list float := [0x1.269bff1f8c190p-49; 0x1.31446f740b9e0p-23; 0x1.35c2c496374bfp-16; 0x1.9c8bc979dc5d7p-11; 0x1.e76f93215462ap-7; 0x1.186eb183443fbp-3; 0x1.331d34fc7d77fp-1; 1].
+
+Definition f_nicdf (p : float) : float :=
+  if is_nan p then p
+  else if (p <? 0) || (1 <? p) then nan
+  else if p =? 0 then neg_infinity
+  else if p =? 1 then infinity
+  else
+    let q := p - 0.5 in
+    if abs q <=? 0x1.b333333333333p-2 (* 0.425 *) then
+      let r := 0x1.71eb851eb851fp-3 (* 0.180625 *) - q * q in
+      fl_horner as_a r 0 * q / fl_horner as_b r 0
+    else
+      let r := PrimFloat.sqrt (- f_ln (if q <=? 0 then p else 1 - p)) in
+      let x := if r <=? 5 then
+                 let r := r - 0x1.999999999999ap+0 (* 1.6 *) in
+                 fl_horner as_c r 0 / fl_horner as_d r 0
+               else
+                 let r := r - 5 in
+                 fl_horner as_e r 0 / fl_horner as_f r 0 in
+      if q <? 0 then - x else x.
+
+(* ------------------------------------------------------------------------------------------ *)
+
+#[global] Instance NumFloat : Num float := {|
+  n0 := 0; n1 := 1;
+  nadd := PrimFloat.add; nsub := PrimFloat.sub; nmul := PrimFloat.mul; ndiv := PrimFloat.div;
+  nneg := PrimFloat.opp; nabs := PrimFloat.abs;
+  nltb := PrimFloat.ltb; nleb := PrimFloat.leb; neqb := PrimFloat.eqb;
+  nofZ := f_ofZ;
+  npow := f_pow;
+  nexp := f_exp; nln := f_ln; nsqrt := PrimFloat.sqrt;
+  ntrunc := f_trunc;
+  nrem := f_rem;
+  ncdf := f_ncdf;
+  nicdf := f_nicdf;
+  npi := f_pi;
+  nsignum := f_signum
+|}.
+
+(* ------------------------------------------------------------------------------------------ *)
+(* self checks (vm_compute)                                                                    *)
+
+Definition fl_test_bits : list Z :=
+  [0; 9223372036854775808; 4607182418800017408; 13836183955189006336; 4591870180066957722;
+   1; 4503599627370495; 4503599627370496; 9218868437227405311; 9218868437227405312;
+   18442240474082181120; 9221120237041090560; 4606913598010824429; 4614256656552045848;
+   9223392277080106539; 4728057454355546112]%Z.
+
+Example fl_bits_roundtrip :
+  map (fun b => bits_of_float (float_of_bits b)) fl_test_bits = fl_test_bits.
+Proof. vm_compute. reflexivity. Qed.
+
+Example fl_bits_values :
+  map bits_of_float
+      [0; -0; 1; -2.5; 0x1.999999999999ap-4; 0x1p-1074; 0x0.fffffffffffffp-1022; 0x1p-1022;
+       0x1.fffffffffffffp+1023; infinity; neg_infinity; nan; 0x1.f0b82485a16edp-1; f_pi;
+       123456789.125]
+  = [0; 9223372036854775808; 4607182418800017408; 13836183955189006336; 4591870180066957722;
+     1; 4503599627370495; 4503599627370496; 9218868437227405311; 9218868437227405312;
+     18442240474082181120; 9221120237041090560; 4606913598010824429; 4614256656552045848;
+     4728057454355546112]%Z.
+Proof. vm_compute. reflexivity. Qed.
+
+(* signalling / payload NaNs are canonicalised *)
+Example fl_bits_nan :
+  map (fun b => bits_of_float (float_of_bits b))
+      [9218868437227405313; 18444492273895866368; 9223372036854775807]%Z
+  = [9221120237041090560; 9221120237041090560; 9221120237041090560]%Z.
+Proof. vm_compute. reflexivity. Qed.
+
+Example fl_special_values :
+  map bits_of_float
+      [f_exp neg_infinity; f_exp infinity; f_exp 710; f_exp 0; f_ln 0; f_ln 1; f_ln infinity;
+       f_pow 0 0; f_pow nan 0; f_pow 1 nan; f_pow 0 2; f_pow 0 (-2); f_pow (-0) (-3); f_pow (-2) 3; f_pow (-1) 0x1p+1000;
+       f_pow 2 (-1); f_pow 4 0.5; f_pow 3 2; f_trunc (-2.5); f_trunc 2.5;
+       f_rem 5.5 2; f_rem (-5.5) 2; f_rem 5 infinity; f_rem (-6) 3;
+       f_signum 0; f_signum (-0); f_signum infinity; f_signum (-3);
+       f_ncdf 0; f_ncdf infinity; f_ncdf neg_infinity; f_nicdf 0; f_nicdf 1; f_nicdf 0.5;
+       f_ofZ 9007199254740993; f_ofZ (-3)]
+  = map bits_of_float
+      [0; infinity; infinity; 1; neg_infinity; 0; infinity;
+       1; 1; 1; 0; infinity; neg_infinity; -8; 1;
+       0.5; 2; 9; -2; 2;
+       1.5; -1.5; 5; -0;
+       1; -1; 1; -1;
+       0.5; 1; 0; neg_infinity; infinity; 0;
+       9007199254740992; -3].
+Proof. vm_compute. reflexivity. Qed.
+
+Example fl_nan_cases :
+  forallb is_nan
+    [f_exp nan; f_ln nan; f_ln (-1); f_pow (-2) 0.5; f_pow nan 1; f_pow 2 nan; f_trunc nan;
+     f_rem 1 0; f_rem infinity 2; f_rem nan 1; f_rem 1 nan; f_signum nan; f_ncdf nan;
+     f_nicdf nan; f_nicdf (-0.125); f_nicdf 1.5] = true.
+Proof. vm_compute. reflexivity. Qed.
